@@ -14,6 +14,7 @@ import Driver.LineRec
 import Driver.InlineLoop
 import Driver.Reader
 import Driver.CMSpec
+import Driver.Blocks
 namespace Driver
 
 def handle (line : String) : String :=
@@ -35,6 +36,7 @@ def handle (line : String) : String :=
   | "inlineloop" :: rest => handleInlineLoop rest
   | "reader" :: rest => handleReader rest
   | "cmspec" :: rest => handleCMSpec rest
+  | "blocks" :: rest => handleBlocks rest
   | _ => bad
 
 partial def loop (hin hout : IO.FS.Stream) : IO Unit := do
